@@ -4,6 +4,7 @@ import (
 	"fmt"
 	"go/token"
 	"go/types"
+	"sort"
 	"strings"
 
 	"golang.org/x/tools/go/ssa"
@@ -14,9 +15,9 @@ func init() {
 		id:  "C06",
 		run: runC06,
 		explanation: "Decided (structural, for every crash point at transaction-commit granularity): " +
-			"C06.headerlast — in every function that writes the data bucket (in-memory writer and big writer alike), no path leads from a put of the schema or of the row counter through a Commit to a put of a bitmap, no Commit lies between the two header puts, and every successful return has passed both header puts and a Commit after them; so every committed prefix of a creation lacks the schema key; " +
-			"C06.openvalidate — the open function guards the data bucket against nil before using it, guards the length of the row-counter item (and of every byte slice it decodes with encoding/binary) before decoding, indexes or re-slices (constant bound) a byte slice that comes from the file — Bucket.Get result, cursor key/value, also as a helper's parameter or result — only under a dominating length test, and propagates the schema decode error; hence a file without schema (every committed prefix) is rejected with an error, never a panic; " +
-			"C06.release — the rejection neither hangs the next open nor panics: every failing return of the open function has closed the database handle (or every caller in the module closes the handle it passed), and no caller calls a receiver-dereferencing method on the nil *Index result of a failed open (= C15.release). " +
+			"C06.headerlast — in every function that writes the data bucket (in-memory writer and big writer alike), no path leads from a put of the schema or of the row counter through a Commit to a put of a bitmap, no Commit lies between the two header puts, and every successful return has passed both header puts and a Commit after them; so every committed prefix of a creation lacks the schema key. A header put made only under a condition of the flush function (the last chunk's DB.Update callback, a trailer appended to the last batch) is followed on the executions on which the condition held, and counts as 'passed' only where the condition is known to have held. Entries that are first encoded into a list of (key, value) structs and stored by a helper with Put(e.key, e.value) are followed through the list (append order, literals, re-slices, chunks `l[:n]` / `l = l[n:]`, a sort over entries of one kind only); a list whose order cannot be established — notably one that is sorted after the schema / row counter entries were added — is reported; " +
+			"C06.openvalidate — the open function guards the data bucket against nil before using it (a later step of a split open function needs no check of its own if every call path from the open function to it passes the success of the step that found the bucket non-nil), guards the length of the row-counter item (and of every byte slice it decodes with encoding/binary) before decoding, indexes or re-slices (constant bound) a byte slice that comes from the file — Bucket.Get result, cursor key/value, also as a helper's parameter or result — only under a dominating length test, and propagates the schema decode error; hence a file without schema (every committed prefix) is rejected with an error, never a panic; " +
+			"C06.release — the rejection neither hangs the next open nor panics: every failing return of the open function has closed the database handle (a close through the index counts only where the handle has been stored into the index on every path to it; or every caller in the module closes the handle it passed), and no caller calls a receiver-dereferencing method on the nil *Index result of a failed open (= C15.release). " +
 			"NOT decided: bbolt's per-transaction atomicity and meta-page validation (trusted); SIGKILL below transaction granularity (bbolt's business); equality of answers of a completely written index (C05).",
 		assumptions: []string{"bbolt transactions are atomic and durable at Commit", "gob decoding of an absent/empty schema item fails", "go/ssa CFG"},
 	})
@@ -25,8 +26,8 @@ func init() {
 		run: runC15,
 		explanation: "Decided (structural, for every damaged file and open/close sequence): " +
 			"C15.nocreate — OpenIndex opens the file through an openfile hook that clears O_CREATE (constant option evaluated through OpenFile's branches; flag arithmetic of the returned hook); " +
-			"C15.validate — nil data bucket, row-counter length, bitmap-key length, the length of every file item before it is indexed or re-sliced, and schema/bitmap decode errors are guarded resp. propagated in everything reachable from the open functions and options (= C06.openvalidate); " +
-			"C15.release — every return of the open function with a non-nil error has passed a Close of the database handle on every path (directly, through the index under construction, in a helper whose parameter is bound to the handle and that closes on all of its paths, or in a deferred close-on-error literal) — or else every caller in the module closes the handle it passed on every path on which the open function failed; no caller calls a receiver-dereferencing method on the *Index result while the error is known to be non-nil (the result is nil then: the release panics and the file stays locked); and OpenIndex hands the handle to the open function or closes it on every path after a successful bbolt.Open; " +
+			"C15.validate — nil data bucket (tested where it is used, or — for a step of a split open function such as attach/preloadValues after loadMeta — established before: every call path from the open function to the using function passes, on the caller's CFG, the nil-error edge of a call whose callee, judged by its own returns, succeeds only after it has found the same bucket non-nil), row-counter length, bitmap-key length, the length of every file item before it is indexed or re-sliced, and schema/bitmap decode errors are guarded resp. propagated in everything reachable from the open functions and options (= C06.openvalidate); " +
+			"C15.release — every return of the open function with a non-nil error has passed a Close of the database handle on every path (directly, through the index under construction — which counts only if the handle has been stored into the index's database field on every path to that close, directly or in a helper that stores it on all of its paths: Index.Close on an index that does not hold the database yet releases nothing —, in a helper whose parameter is bound to the handle and that closes on all of its paths, or in a deferred close-on-error literal) — or else every caller in the module closes the handle it passed on every path on which the open function failed; no caller calls a receiver-dereferencing method on the *Index result while the error is known to be non-nil (the result is nil then: the release panics and the file stays locked); and OpenIndex hands the handle to the open function or closes it on every path after a successful bbolt.Open; " +
 			"C15.closeidem — Index.Close calls DB.Close only on a handle known to be non-nil and stores nil into the handle field on that path, so a second Close is a no-op; C15.txend — every transaction begun explicitly (DB.Begin) in code reachable from the open functions and options is rolled back or committed on every path after the successful Begin (a leaked transaction makes the db.Close() of a failing open wait forever); " +
 			"C15.lockbalance — in every function reachable from the open functions, the options and Index.Close, a mutex field the function acquires is released (directly, or by a deferred unlock registered on that path) on every path to every return, so a repeated Close or a failed open never leaves the index mutex locked for the next call. " +
 			"NOT decided: which byte patterns make gob/roaring decoding fail, and that roaring's FromBuffer never panics on arbitrary bytes (trusted); panics inside bbolt itself on structurally invalid files.",
@@ -199,6 +200,16 @@ func flushEvents(c *Ctx, i ssa.Instruction, depth int, undec *[]ssa.Instruction)
 		case "schema", "rows", "value":
 			out[k] = true
 		default:
+			// Put(e.key, e.value) over an encoded entry list (rules_ag23.go): the kinds of the entries the list holds
+			if kinds, isList := listPutKinds(c, i); isList {
+				for k := range kinds {
+					out[k] = true
+				}
+				if !kinds[""] {
+					return out
+				}
+				delete(out, "")
+			}
 			if undec != nil {
 				*undec = append(*undec, i)
 			}
@@ -253,6 +264,7 @@ func funcFlushEvents(c *Ctx, f *ssa.Function, depth int) map[string]bool {
 
 func headerLastRule(c *Ctx, rule string, fn *ssa.Function) {
 	flushMemo = map[*ssa.Function]map[string]bool{}
+	listTops = map[*ssa.Call]*entList{}
 	headerLastRule1(c, rule, fn, map[*ssa.Function]bool{})
 }
 
@@ -288,7 +300,33 @@ func headerLastRule1(c *Ctx, rule string, fn *ssa.Function, done map[*ssa.Functi
 			}
 		}
 	})
+	// an encoded entry list that cannot be followed (rules_ag23.go): say why; what the list holds is unknown, so the
+	// consequences ("never writes the schema key") are not reported on top of it
+	if len(listTops) > 0 && len(done) == 1 {
+		var calls []*ssa.Call
+		for call := range listTops {
+			calls = append(calls, call)
+		}
+		sort.Slice(calls, func(i, j int) bool { return calls[i].Pos() < calls[j].Pos() })
+		for _, call := range calls {
+			l := listTops[call]
+			sites := []string{c.w.ipos(call)}
+			if l.at != nil {
+				sites = []string{c.w.ipos(l.at), c.w.ipos(call)}
+			}
+			who := "the entries that " + safeFname(call.Parent()) + " stores with Put(e.key, e.value) "
+			if l.defect {
+				c.r.bad(rule, name+": entry list", who+"do not reach the file with the schema and the row counter last, so a crash after an early commit leaves a file that opens as an index and silently misses bitmaps: "+l.why, sites)
+			} else {
+				c.r.undecided(rule, name+": entry list", who+"come from a list whose order the rule cannot establish, so it is not shown that the schema and the row counter are written last: "+l.why, sites...)
+			}
+		}
+		return
+	}
 	for _, u := range undec {
+		if call, ok := u.(*ssa.Call); ok && listTops[call] != nil {
+			continue
+		}
 		c.r.undecided(rule, name+": put", "a Put into the data bucket whose key the rule cannot classify as schema, row counter or bitmap", c.w.ipos(u))
 	}
 	defer func() {
@@ -323,13 +361,63 @@ func headerLastRule1(c *Ctx, rule string, fn *ssa.Function, done map[*ssa.Functi
 	allHdr = append(allHdr, hdr["schema"]...)
 	allHdr = append(allHdr, hdr["rows"]...)
 	// (1) header put -> Commit -> value put
+	// Two refinements (rules_ag23.go). A carrier that puts the header only under a condition g of this function and
+	// commits it itself (the callback of DB.Update writes it `if isLast`; the batch gets the trailer `if last`): the
+	// search follows only executions in which g held at the carrier. A consumer that is handed consecutive chunks of
+	// one list in which no bitmap follows a header entry: a later chunk holds only entries that come later in the list,
+	// so the consumer's own next call is no bitmap put after the header.
+	kindsOf := func(h ssa.Instruction) []string {
+		var ks []string
+		for _, k := range []string{"schema", "rows"} {
+			if inList(hdr[k])(h) {
+				ks = append(ks, k)
+			}
+		}
+		return ks
+	}
+	chunks := map[ssa.Instruction]*chunkInfo{}
+	for _, h := range allHdr {
+		if _, seen := chunks[h]; !seen {
+			chunks[h] = c.chunkOf(fn, h)
+		}
+	}
 	ok1 := true
 	for _, h := range allHdr {
+		targets := vals
+		if ch := chunks[h]; ch != nil && c.headerLast(ch.init, ch.fk) {
+			targets = nil
+			for _, v := range vals {
+				if v != h {
+					targets = append(targets, v)
+				}
+			}
+		}
 		for _, cm := range commits {
 			if h != cm && !c.fc.reachableFrom(fn, h, cm) {
 				continue
 			}
-			if p := c.fc.pathAvoiding(fn, cm, inList(vals), nil); p != nil {
+			var p []ssa.Instruction
+			guarded := false
+			if h == cm {
+				var g ssa.Value
+				pol := false
+				guarded = true
+				for _, k := range kindsOf(h) {
+					cr := c.hdrCarryOf(fn, h, k, 3)
+					if !cr.onlyIf || cr.g == nil || (g != nil && (g != cr.g || pol != cr.pol)) {
+						guarded = false
+						break
+					}
+					g, pol = cr.g, cr.pol
+				}
+				if guarded {
+					p = c.guardedPath(fn, cm, inList(targets), g, pol)
+				}
+			}
+			if !guarded {
+				p = c.fc.pathAvoiding(fn, cm, inList(targets), nil)
+			}
+			if p != nil {
 				ok1 = false
 				c.r.bad(rule, name+": header before bitmaps", "a transaction containing the schema/row counter can be committed before all bitmaps are written: a crash after that commit leaves a file that opens as an index and silently misses bitmaps",
 					[]string{c.w.ipos(h)}, append([]string{c.w.ipos(h), c.w.ipos(cm)}, c.fc.witnessStrings(p)...)...)
@@ -358,18 +446,42 @@ func headerLastRule1(c *Ctx, rule string, fn *ssa.Function, done map[*ssa.Functi
 			}
 		}
 	}
+	// a consumer that is handed a list in chunks, each in a transaction of its own: the cut must not fall between the two
+	for h, ch := range chunks {
+		if ch == nil || !inList(hdr["schema"])(h) || !inList(hdr["rows"])(h) {
+			continue
+		}
+		if t, fixed := c.trailerLen(ch.init, ch.fk); !fixed || !c.chunkKeepsTrailer(ch, t) {
+			ok2 = false
+			c.r.undecided(rule, name+": header split", "the entry list is written in chunks, a transaction each, and it is not shown that the schema and the row counter always fall into the same chunk: a crash between the two commits leaves a file with half a header", c.w.ipos(h))
+		}
+	}
 	if ok2 {
 		c.r.ok(rule, name+": header split", "schema and row counter are written in the same transaction", site)
 	}
 	// (3) every successful return has passed both header puts, and a Commit after them
+	// (a carrier counts as a put of the key only if it puts it whenever it completes, see hdrCarry in rules_ag23.go; a
+	// helper that merely stores the list it is handed is judged where it is called, with the list of that call)
 	ok3 := true
 	for _, k := range []string{"schema", "rows"} {
-		if p := c.fc.pathAvoiding(fn, nil, isSuccessReturn, inList(hdr[k])); p != nil {
+		byParam := len(done) > 1 && len(hdr[k]) > 0
+		for _, h := range hdr[k] {
+			if !c.hdrCarryOf(fn, h, k, 3).listParam {
+				byParam = false
+			}
+		}
+		if byParam {
+			continue
+		}
+		if p := c.headerMissingPath(fn, k, 3, isSuccessReturn); p != nil {
 			ok3 = false
 			c.r.bad(rule, name+": complete", "a successful return is reachable without writing the "+k+" key", []string{c.w.ipos(p[len(p)-1])}, c.fc.witnessStrings(p)...)
 		}
 	}
 	for _, h := range allHdr {
+		if c.selfCommits(h, 3) {
+			continue
+		}
 		if p := c.fc.pathAvoiding(fn, h, isSuccessReturn, inList(commits)); p != nil {
 			ok3 = false
 			c.r.bad(rule, name+": complete", "a successful return is reachable after the header put without a Commit", []string{c.w.ipos(h)}, c.fc.witnessStrings(p)...)
@@ -416,8 +528,19 @@ func openValidateRule(c *Ctx, rule string) {
 						continue
 					}
 					uses++
-					c.r.check(c.fc.nonNilAt(call, uc), rule, fmt.Sprintf("%s: bucket use %s", name, shortName(calleeName(&uc.Call))), "bucket is known to be non-nil",
-						"a method is called on the result of Bucket() without a nil check: a bbolt file without the data bucket (e.g. an output file whose creation died before the first commit) makes opening panic", c.w.ipos(uc))
+					okmsg, badmsg := "bucket is known to be non-nil", "a method is called on the result of Bucket() without a nil check: a bbolt file without the data bucket (e.g. an output file whose creation died before the first commit) makes opening panic"
+					guarded := c.fc.nonNilAt(call, uc)
+					if !guarded && fn != c.a.OpenFromDB {
+						// a later step of a split open function (`attach`, `preloadValues` after `loadMeta`): no check of its own is
+						// needed if every call path from the open function to it passes the success of the step that found this
+						// bucket non-nil. The step is judged by its own returns, the order on the caller's CFG.
+						if est, why := bucketEstablishedBefore(c, c.a.OpenFromDB, openScope, call); est {
+							guarded, okmsg = true, "no nil check here, but every call path from the open function to this function passes "+why+", which fails unless this bucket exists"
+						} else {
+							badmsg += " (nor does every call path from the open function to this function pass the success of a step that has found this bucket non-nil)"
+						}
+					}
+					c.r.check(guarded, rule, fmt.Sprintf("%s: bucket use %s", name, shortName(calleeName(&uc.Call))), okmsg, badmsg, c.w.ipos(uc))
 				}
 				if uses == 0 {
 					c.r.ok(rule, name+": bucket", "bucket not dereferenced here", c.w.ipos(i))
@@ -548,7 +671,8 @@ func runC15(c *Ctx) {
 	decide, why := hookDecider(c)
 	found := false
 	for _, s := range boltOpenSites(c) {
-		if s.fn != c.a.OpenIndex {
+		// OpenIndex's site, in OpenIndex itself or in a helper only it calls (classified by the census, boltOpenSites)
+		if s.anchor != c.a.OpenIndex {
 			continue
 		}
 		found = true
@@ -725,8 +849,8 @@ func openFailResultNil(c *Ctx, fn *ssa.Function) bool {
 }
 
 // releaseRule: (a) every return of the open function with a non-nil error has passed a Close of the database handle on
-// every path (directly, through the index under construction, in a helper bound to the handle, or in a deferred
-// close-on-error literal) — or, in the "who opened it closes it" design, every module caller of the open function closes
+// every path (directly, through the index under construction — only where the handle has been stored into the index on
+// every path to that close, setsIndexDB —, in a helper bound to the handle, or in a deferred close-on-error literal) — or, in the "who opened it closes it" design, every module caller of the open function closes
 // the handle it passed on every path on which the open function's error is non-nil; (b) OpenIndex hands the handle to the
 // open function or closes it on every path after a successful bbolt.Open; (c) a caller of the open function never
 // calls, with the error known to be non-nil, a receiver-dereferencing method on the *Index result: that result is nil
@@ -749,11 +873,34 @@ func releaseRule(c *Ctx, rule string) {
 		_, isPtr := v.Type().Underlying().(*types.Pointer)
 		return isPtr && namedOf(v.Type()) == idxT
 	}
+	// A close through the index (Index.Close, idx.db.Close(), a helper that is given the index) releases the database
+	// only if the index holds it: the handle has been stored into the index's database field on every path to the close
+	// (in the composite literal, by `idx.db = db`, or in a helper that does so on all of its paths). `idx.Close()` after
+	// a failed `attach(db)` that assigns idx.db last closes nothing — Index.Close is a no-op on an index without database.
+	isDB := func(v ssa.Value) bool { return peel(v) == db }
+	isSet := func(i ssa.Instruction) bool { return setsIndexDB(c, i, isDB, 2) }
+	closeMemo := map[ssa.Instruction]bool{}
+	var emptyCloses []ssa.Instruction
 	isClose := func(i ssa.Instruction) bool {
 		if d, isDefer := i.(*ssa.Defer); isDefer {
 			return closesOnError(c, fn, d, db)
 		}
-		return closesHandle(c, i, isH, 2)
+		if _, isCall := i.(*ssa.Call); !isCall {
+			return false
+		}
+		if v, done := closeMemo[i]; done {
+			return v
+		}
+		v := closesHandle(c, i, isDB, 2)
+		if !v && closesHandle(c, i, isH, 2) {
+			if c.fc.pathAvoiding(fn, nil, func(x ssa.Instruction) bool { return x == i }, isSet) == nil {
+				v = true
+			} else {
+				emptyCloses = append(emptyCloses, i)
+			}
+		}
+		closeMemo[i] = v
+		return v
 	}
 	// the callers of the open function inside the module
 	type site struct {
@@ -791,7 +938,14 @@ func releaseRule(c *Ctx, rule string) {
 				c.r.ok(rule, key, fmt.Sprintf("not closed here, but each of the %d callers in the module closes the handle it passed on every path on which this function failed", len(sites)), c.w.ipos(i))
 				return
 			}
-			c.r.bad(rule, key, "the open function returns an error without closing the database on this path (and not every caller closes the handle itself when the open function fails): the file stays locked and the next open blocks", []string{c.w.ipos(i)}, c.fc.witnessStrings(p)...)
+			msg := "the open function returns an error without closing the database on this path (and not every caller closes the handle itself when the open function fails): the file stays locked and the next open blocks"
+			for _, e := range emptyCloses {
+				if e.Block() == i.Block() || c.fc.reachableFrom(fn, e, i) {
+					msg += "; the close through the index at " + c.w.ipos(e) + " does not count: on some path to it the database handle has not been stored into the index (the step that assigns it has failed or has not run), so there is no database in the index to close"
+					break
+				}
+			}
+			c.r.bad(rule, key, msg, []string{c.w.ipos(i)}, c.fc.witnessStrings(p)...)
 		} else {
 			c.r.ok(rule, key, "database closed on every path to this error return", c.w.ipos(i))
 		}
